@@ -501,7 +501,7 @@ def _explore(state, runs, lens, acc, local):
         found = mode in CACHE_MODES and any(cached_for(c, state) for c in run[5])
         wrote = succ.key != state.key
         evict = mode != 'eager' and _returns_to_evicted(run[5])
-        effect = ('reads' if found else '') + ('+writes' if wrote else '') or 'cache-untouched'
+        effect = '+'.join(x for x in ('finds-earlier-cache' if found else '', 'writes' if wrote else '') if x) or 'cache-untouched'
         case = {'history': [run_to_json(r) for r in state.history + (run,)]}
         acc.case(case, transitions=1 + len(run[5]) * (len(G.PROBE_POSITIONS) * (len(G.PROBE_BASES) + 1 + (run[4] == 'h'))),
                  nontrivial=bool(found or evict),
